@@ -410,6 +410,8 @@ def m_range(I_, args, kws, st, ctx, k, node):
 
 def m_enumerate(I_, args, kws, st, ctx, k, node):
   start = args[1] if len(args) > 1 else kws.get("start", 0)
+  if isinstance(args[0], Ref) and st.obj(args[0]).kind == "slist" and start == 0:
+    return k(st, SEnum(args[0]))
   return iter_values(I_, args[0], st, ctx,
                      lambda st2, items: k(st2, IterVal([(start + i, x) for i, x in enumerate(items)])), node)
 
